@@ -25,7 +25,7 @@ RULE = ("(a,b) every term constructed by any engine (monitor on reflect.interpre
         "enumerated exhaustively. A case is a distinct (term class, child types) / (op, domains, params); non-trivial: all")
 ASSUMPTIONS = ["typing rules of fv/ir.py (written from the documentation, never calling find_domain)", "numpy for actual shapes and values"]
 MIN_NONTRIVIAL = {"quick": 2000, "thorough": 10000}
-REQUIRED_COUNTERS = ["M06:terms-checked", "M06:tensors-checked", "lazy-vs-eager:ok", "catalogue:ok"]
+REQUIRED_COUNTERS = ["M06:terms-checked", "M06:tensors-checked", "lazy-vs-eager:ok", "catalogue:ok", "int-arith:ok"]
 
 
 # ---------------------------------------------------------------------------
@@ -222,6 +222,71 @@ def run_monitor(shard, res, rng):
     res.case(key="%s:%s" % (shard["engine"], "monitored"), nontrivial=True, sample={"engine": shard["engine"], "terms_checked": res.counters.get("M06:terms-checked", 0)})
 
 
+def int_programs(rng):
+    """bounded-integer arithmetic between Numbers, Tensors and lazy Variables of different sizes, both operand orders"""
+    sizes = (2, 3, 4)
+    for op in ("add", "mul", "max", "min", "pow", "mod", "floordiv", "eq", "lt"):
+        for a, b in itertools.product(sizes, repeat=2):
+            if op in ("mod", "floordiv") and b < 2:
+                continue
+            forms_a = [("num", int(rng.integers(0, a)), a), ("ten", rng.integers(0, a, size=(3,)).astype(np.int64), ("i",), a), ("ten", rng.integers(0, a, size=()).astype(np.int64), (), a), ("var", "u", (a, ()))]
+            lo = 1 if op in ("mod", "floordiv") else 0
+            forms_b = [("num", int(rng.integers(lo, b)), b), ("ten", rng.integers(lo, b, size=(3,)).astype(np.int64), ("i",), b), ("ten", rng.integers(lo, b, size=(2,)).astype(np.int64), ("j",), b), ("var", "v", (b, ()))]
+            for fa in forms_a:
+                for fb in forms_b:
+                    yield ("bin", op, (), fa, fb)
+
+
+def run_int_arith(res, rng, riders):
+    from funsor.interpretations import reflect
+    from funsor.tensor import Tensor
+    from funsor.terms import Number
+
+    from ..build import build
+    from ..refsem import all_envs, ref_eval
+    from ..common import close
+
+    for P in int_programs(rng):
+        riders.before(P)
+        try:
+            with np.errstate(all="ignore"):
+                with reflect:
+                    L = build(P)
+                E = build(P)
+        except Exception as e:
+            res.count("int-arith:declined:%s" % type(e).__name__)
+            continue
+        msg = None
+        if dom_of(E.output) != dom_of(L.output):
+            unit = {"add": 0, "mul": 1}.get(P[1])
+            is_unit_removal = unit is not None and any(o[0] == "num" and o[1] == unit for o in (P[3], P[4])) and not isinstance(E, (Tensor, Number))
+            msg = ("eager-output:unit-removal" if is_unit_removal else "eager-output", "eager result declares %s, the lazy term declares %s" % (E.output, L.output))
+        elif isinstance(E, (Tensor, Number)):
+            data = np.asarray(E.data)
+            dt = dom_of(E.output)[0]
+            if dt != "real" and data.size and (int(data.min()) < 0 or int(data.max()) >= dt):
+                if P[1] not in ("floordiv",):  # the static bound of floordiv is a recorded finding
+                    msg = ("bint-range-eager:%s" % P[1], "eager result declares Bint[%s] but holds values in [%d, %d]" % (dt, int(data.min()), int(data.max())))
+            if msg is None:
+                try:
+                    inputs = {k: dom_of(d) for k, d in E.inputs.items()}
+                    for env in all_envs(inputs, rng, limit=24):
+                        with np.errstate(all="ignore"):
+                            want = ref_eval(P, env)
+                        got = data[tuple(int(env[k]) for k in E.inputs)] if isinstance(E, Tensor) else data
+                        if not close(got, want):
+                            msg = ("int-arith-value:%s" % P[1], "at %s got %s expected %s" % (env, got, want))
+                            break
+                except Exception as e:
+                    res.count("int-arith:undecided:%s" % type(e).__name__)
+        res.case(key=digest(P), nontrivial=True)
+        if msg:
+            res.violation("type:" + msg[0], "%s | %s" % (msg[1], show(P)[:300]), case={"P": P})
+        else:
+            res.count("int-arith:ok")
+        riders.after(None)
+
+
 def run_lve(shard, res, rng):
     from funsor.interpretations import reflect
 
@@ -231,6 +296,7 @@ def run_lve(shard, res, rng):
 
     riders = Riders(res)
     shapes = [(), (), (2,), (3,), (2, 3)]
+    run_int_arith(res, rng, riders)
     for i in range(shard["n"]):
         if i % 4 == 3:
             P = SemiringGen(rng, SEMIRINGS[int(rng.integers(len(SEMIRINGS)))]).program(3)
